@@ -130,6 +130,10 @@ type FuncContract struct {
 		Name string
 		E    Expr
 	}
+	Witness []struct {
+		Name string
+		E    Expr
+	}
 	Params []string // for funcfield / interface contracts: parameter names
 	NoPanicProps []string
 	NoPanicKinds []string // restrict no-panic obligations to these kinds; the rest are API preconditions (assumed)
@@ -536,6 +540,19 @@ func ParseContracts(path string) (*Contracts, error) {
 				curF.Locks = append(curF.Locks, e)
 				curF.LockTexts = append(curF.LockTexts, a)
 			}
+		case "witness":
+			parts := strings.SplitN(rest, "=", 2)
+			if len(parts) != 2 {
+				return fmt.Errorf("line %d: bad witness", lineNo)
+			}
+			e, err := ParseExpr(strings.TrimSpace(parts[1]))
+			if err != nil {
+				return fmt.Errorf("line %d: %v", lineNo, err)
+			}
+			curF.Witness = append(curF.Witness, struct {
+				Name string
+				E    Expr
+			}{strings.TrimSpace(parts[0]), e})
 		case "inline":
 			curF.Inline = true
 		case "trusted":
